@@ -134,25 +134,26 @@ func plain(d ocispec.Descriptor) ocispec.Descriptor {
 }
 
 type session struct {
-	rt       *rapid.T
-	rec      *stats.Recorder
-	ctx      context.Context
-	kind     string // disk, memory
-	dir      string
-	inner    oras.GraphTarget
-	ls       *logStore
-	repo     registry.Repository
-	pool     []*subject
-	refs     []*referrer
-	blobs    map[digest.Digest][]byte // every blob the harness or PushSignature stored
-	counter  int
-	pushes   int
-	bigOnes  int  // 4 MiB manifests in this session (kept to one: disk traffic)
-	noReopen bool // a referrer with a dangling (wrong size / wrong digest) subject exists
-	ops      []string
-	foreign  int
-	hostile  int
-	reopened int
+	rt          *rapid.T
+	rec         *stats.Recorder
+	ctx         context.Context
+	kind        string // disk, memory
+	dir         string
+	inner       oras.GraphTarget
+	ls          *logStore
+	repo        registry.Repository
+	pool        []*subject
+	refs        []*referrer
+	blobs       map[digest.Digest][]byte // every blob the harness or PushSignature stored
+	emptyPushed bool                     // the empty envelope has been pushed in this session
+	counter     int
+	pushes      int
+	bigOnes     int  // 4 MiB manifests in this session (kept to one: disk traffic)
+	noReopen    bool // a referrer with a dangling (wrong size / wrong digest) subject exists
+	ops         []string
+	foreign     int
+	hostile     int
+	reopened    int
 	// held: envelope slices exactly as FetchSignatureBlob returned them (not copies), with the digest
 	// they must keep having: what a caller was handed stays what it is, whatever is fetched later
 	held []heldEnvelope
@@ -496,8 +497,14 @@ func (s *session) opPushSignature(rt *rapid.T) {
 	// repository stores what it is given and hands it back unchanged
 	format := rp.Pick(rt, "format", mtJOSE, mtCOSE, mtJOSE, mtCOSE, mtJOSE, mtCOSE, "application/vnd.example.Envelope.v1+cbor", "application/jose+json; charset=utf-8", "Application/COSE")
 	var n int
-	sizeClass := rp.Pick(rt, "sizeClass", "1B", "small", "small", "small", "small", "medium", "medium", "medium", "medium", "medium", "medium", "large", "large", "256KiB")
+	sizeClass := rp.Pick(rt, "sizeClass", "0B", "1B", "small", "small", "small", "small", "medium", "medium", "medium", "medium", "medium", "medium", "large", "large", "256KiB")
 	switch sizeClass {
+	case "0B": // an envelope without a single byte is stored and handed back like any other
+		n = 0
+		if s.emptyPushed { // envelopes are distinct within a session (a second push of the same bytes is refused as "already exists")
+			n, sizeClass = 1, "1B"
+		}
+		s.emptyPushed = true
 	case "1B":
 		n = 1
 	case "small":
@@ -509,7 +516,10 @@ func (s *session) opPushSignature(rt *rapid.T) {
 	default:
 		n = maxEnvelope - rp.Pick(rt, "below", 0, 0, 1, 4095)
 	}
-	env := s.uniqueBytes(n, rapid.Byte().Draw(rt, "fill"), byte(2*rapid.IntRange(0, 127).Draw(rt, "step")+1))
+	env := []byte{}
+	if n > 0 {
+		env = s.uniqueBytes(n, rapid.Byte().Draw(rt, "fill"), byte(2*rapid.IntRange(0, 127).Draw(rt, "step")+1))
+	}
 	ann := s.drawAnnotations()
 	passed := s.decorate(subj.desc)
 	s.pushes++
@@ -590,17 +600,21 @@ func (s *session) opPushForeign(rt *rapid.T) {
 		"layer-ref-no-subject", "layer-ref-other-subject", "subject-off-digest", "subject-off-size", "subject-off-mediatype")
 	h := handSpec{kind: kind, artifactType: typeNotation}
 	detail := ""
+	// "none of another artifact type": another type is any other string, however much it looks like the
+	// signature type (letter case, a media-type suffix or parameter, a version, stray blanks)
+	otherType := rp.Pick(rt, "otherType", typeOther, typeOther, "application/vnd.CNCF.notary.signature", typeNotation+"+json", typeNotation+"; version=2",
+		typeNotation+";v=1", typeNotation+".v2", typeNotation+" ", " "+typeNotation, typeNotation[:len(typeNotation)-1], "Application/vnd.cncf.notary.signature", typeNotation+"+cose")
 	switch kind {
 	case "other-type", "other-type-field":
 		b := s.dedicatedBlob()
 		sub := subj.desc
-		h.artifactType, h.typeInField, h.subject, h.layers, h.dedicated = typeOther, kind == "other-type-field", &sub, []ocispec.Descriptor{b}, []ocispec.Descriptor{b}
+		h.artifactType, h.typeInField, h.subject, h.layers, h.dedicated = otherType, kind == "other-type-field", &sub, []ocispec.Descriptor{b}, []ocispec.Descriptor{b}
 	case "legacy-other-type", "legacy-notation":
 		b := s.dedicatedBlob()
 		sub := subj.desc
 		h.legacy, h.subject, h.layers, h.dedicated = true, &sub, []ocispec.Descriptor{b}, []ocispec.Descriptor{b}
 		if kind == "legacy-other-type" {
-			h.artifactType = typeOther
+			h.artifactType = otherType
 		}
 	case "layer-ref-no-subject":
 		h.legacy = rapid.IntRange(0, 3).Draw(rt, "legacy") == 0
